@@ -286,3 +286,14 @@ fn c13_tree_first_message_key_bounded_4() {
         _ => assert!(false),
     }
 }
+
+#[kani::proof]
+#[kani::stub(zeroize::optimization_barrier, noop_barrier)]
+#[kani::stub(std::hash::RandomState::new, fixed_random_state)]
+#[kani::unwind(12)]
+fn x9_hashmap_one_insert() {
+    let secret = any_exact::<NH>();
+    let t = SecretTree::<u32>::new(4, Zeroizing::new(secret.clone()));
+    assert!(t.known_secrets.inner.len() == 1);
+    core::mem::forget(t);
+}
